@@ -529,6 +529,213 @@ func repinShape(repin, vacate *ast.FuncDecl) string {
 	return fmt.Sprintf("{ clearsAllocations := %v, blacklistFailed := %v, pinsGivenPin := %v, vacateGuard := %v }", clears, bl, given, guard)
 }
 
+// ---- round 8b: BlockAllocate as a structure, daemon wiring ----
+
+var bargOf = map[string]string{"ctx": ".ctx", "in.Cid": ".cid", "existing": ".existing", "nil": ".nilPin",
+	"in.ReplicationFactorMin": ".rmin", "in.ReplicationFactorMax": ".rmax", "[]peer.ID{}": ".emptyPeers", "in.UserAllocations": ".ualloc"}
+
+var informerIdx = regexp.MustCompile(`^(rpcapi\.)?c\.informers\[(\d+)\]\.Name\(\)$`)
+
+func metricSrc(e ast.Expr) string {
+	t := src(e)
+	if t == "pingMetricName" {
+		return ".ping"
+	}
+	if m := informerIdx.FindStringSubmatch(t); m != nil {
+		return "(.informer " + m[2] + ")"
+	}
+	return ".other"
+}
+
+// blockShape reads ClusterRPCAPI.BlockAllocate statement by statement (fail-closed: any statement it does not expect
+// makes noOtherStatements false and the interpretation `none`).
+func blockShape(fd *ast.FuncDecl) string {
+	var st []ast.Stmt
+	for _, s := range fd.Body.List {
+		if !isLog(s) {
+			st = append(st, s)
+		}
+	}
+	prologue, evField, evMetric, copies, args, returns, nothingElse := false, ".other", ".other", false, []string{}, false, len(st) == 10
+	if len(st) >= 5 {
+		prologue = src(st[0]) == "if rpcapi.c.config.FollowerMode { return errFollowerMode }" &&
+			src(st[1]) == "existing, err := rpcapi.c.PinGet(ctx, in.Cid)" &&
+			src(st[2]) == "if err != nil && err != state.ErrNotFound { return err }" &&
+			src(st[3]) == "err = rpcapi.c.setupPin(ctx, in, existing)" &&
+			src(st[4]) == "if err != nil { return err }"
+	}
+	for _, s := range st {
+		ifs, ok := s.(*ast.IfStmt)
+		if !ok || ifs.Init != nil || ifs.Else != nil {
+			continue
+		}
+		be, ok := ifs.Cond.(*ast.BinaryExpr)
+		if !ok || be.Op != token.LSS || src(be.Y) != "0" {
+			continue
+		}
+		if f, ok := bargOf[src(be.X)]; ok {
+			evField = f
+		}
+		b := ifs.Body.List
+		if len(b) == 5 {
+			if a, ok := b[0].(*ast.AssignStmt); ok && len(a.Lhs) == 1 && src(a.Lhs[0]) == "metrics" && len(a.Rhs) == 1 {
+				if c, ok := a.Rhs[0].(*ast.CallExpr); ok && src(c.Fun) == "rpcapi.c.monitor.LatestMetrics" && len(c.Args) == 2 {
+					evMetric = metricSrc(c.Args[1])
+				}
+			}
+			copies = src(b[1]) == "peers := make([]peer.ID, len(metrics))" &&
+				src(b[2]) == "for i, m := range metrics { peers[i] = m.Peer }" &&
+				src(b[3]) == "*out = peers" && src(b[4]) == "return nil"
+		}
+	}
+	ncalls := 0
+	for k, s := range st {
+		a, ok := s.(*ast.AssignStmt)
+		if !ok || len(a.Rhs) != 1 {
+			continue
+		}
+		c, ok := a.Rhs[0].(*ast.CallExpr)
+		if !ok || src(c.Fun) != "rpcapi.c.allocate" {
+			continue
+		}
+		ncalls++
+		args = nil
+		for _, x := range c.Args {
+			if v, ok := bargOf[src(x)]; ok {
+				args = append(args, v)
+			} else {
+				args = append(args, ".other")
+			}
+		}
+		returns = len(a.Lhs) == 2 && src(a.Lhs[0]) == "allocs" && src(a.Lhs[1]) == "err" && k+3 == len(st)-1 &&
+			src(st[k+1]) == "if err != nil { return err }" && src(st[k+2]) == "*out = allocs" && src(st[k+3]) == "return nil"
+	}
+	if ncalls != 1 {
+		nothingElse = false
+	}
+	return fmt.Sprintf("{ prologue := %v, everywhereField := %s, everywhereMetric := %s, everywhereCopiesPeers := %v,\n    allocArgs := [%s], returnsAllocs := %v, noOtherStatements := %v }",
+		prologue, evField, evMetric, copies, strings.Join(args, ", "), returns, nothingElse)
+}
+
+var informerPkg = map[string]string{"disk": ".disk", "numpin": ".numpin"}
+var allocPkg = map[string]string{"ascendalloc": ".ascend", "descendalloc": ".descend"}
+
+// wiring reads createCluster (daemon.go), the metric allocate() asks for, and the disk informer's default / GetMetric arms.
+func wiring(create, alloc *ast.FuncDecl, diskCfg *ast.File, diskGet *ast.FuncDecl) string {
+	built := map[string]string{} // local variable -> kind
+	infBuilt, allocBuilt := ".other", ".other"
+	ast.Inspect(create, func(n ast.Node) bool {
+		a, ok := n.(*ast.AssignStmt)
+		if !ok || len(a.Rhs) != 1 || len(a.Lhs) < 1 {
+			return true
+		}
+		c, ok := a.Rhs[0].(*ast.CallExpr)
+		if !ok {
+			return true
+		}
+		sel, ok := c.Fun.(*ast.SelectorExpr)
+		if !ok {
+			return true
+		}
+		switch sel.Sel.Name {
+		case "NewInformer":
+			if k, ok := informerPkg[src(sel.X)]; ok {
+				built[src(a.Lhs[0])] = k
+				infBuilt = k
+			}
+		case "NewAllocator":
+			if k, ok := allocPkg[src(sel.X)]; ok {
+				built[src(a.Lhs[0])] = k
+				allocBuilt = k
+			}
+		}
+		return true
+	})
+	infArg, allocArg := []string{}, ".other"
+	ast.Inspect(create, func(n ast.Node) bool {
+		c, ok := n.(*ast.CallExpr)
+		if !ok || src(c.Fun) != "ipfscluster.NewCluster" {
+			return true
+		}
+		// NewCluster(ctx, host, dht, cfg, datastore, consensus, apis, ipfs, tracker, monitor, allocator, informers, tracer)
+		if len(c.Args) != 13 {
+			return true
+		}
+		if k, ok := built[src(c.Args[10])]; ok && strings.HasPrefix(k, ".") && (k == ".ascend" || k == ".descend") {
+			allocArg = k
+		}
+		if cl, ok := c.Args[11].(*ast.CompositeLit); ok && src(cl.Type) == "[]ipfscluster.Informer" {
+			for _, e := range cl.Elts {
+				if k, ok := built[src(e)]; ok && (k == ".disk" || k == ".numpin") {
+					infArg = append(infArg, k)
+				} else {
+					infArg = append(infArg, ".other")
+				}
+			}
+		}
+		return true
+	})
+	metric := ".other"
+	ast.Inspect(alloc, func(n ast.Node) bool {
+		if c, ok := n.(*ast.CallExpr); ok && src(c.Fun) == "c.monitor.LatestMetrics" && len(c.Args) == 2 {
+			metric = metricSrc(c.Args[1])
+		}
+		return true
+	})
+	dflt := ".other"
+	for _, d := range diskCfg.Decls {
+		g, ok := d.(*ast.GenDecl)
+		if !ok || g.Tok != token.CONST {
+			continue
+		}
+		for _, sp := range g.Specs {
+			v := sp.(*ast.ValueSpec)
+			for i, nm := range v.Names {
+				if nm.Name == "DefaultMetricType" && i < len(v.Values) {
+					switch src(v.Values[i]) {
+					case "MetricFreeSpace":
+						dflt = ".freespace"
+					case "MetricRepoSize":
+						dflt = ".reposize"
+					}
+				}
+			}
+		}
+	}
+	free, repo := false, false
+	ast.Inspect(diskGet, func(n ast.Node) bool {
+		cc, ok := n.(*ast.CaseClause)
+		if !ok || len(cc.List) != 1 {
+			return true
+		}
+		var body []string
+		for _, s := range cc.Body {
+			body = append(body, src(s))
+		}
+		switch src(cc.List[0]) {
+		case "MetricFreeSpace":
+			free = strings.Join(body, " ; ") == "size := repoStat.RepoSize ; total := repoStat.StorageMax ; if size < total { metric = total - size } else { metric = 0 }"
+		case "MetricRepoSize":
+			repo = strings.Join(body, " ; ") == "metric = repoStat.RepoSize"
+		}
+		return true
+	})
+	return fmt.Sprintf("{ informerBuilt := %s, allocatorBuilt := %s, informersArg := [%s], allocatorArg := %s,\n    allocateMetric := %s, diskDefault := %s, diskFreeIsTotalMinusSize := %v, diskRepoIsSize := %v }",
+		infBuilt, allocBuilt, strings.Join(infArg, ", "), allocArg, metric, dflt, free, repo)
+}
+
+// daemonLines: the source text of the statements of createCluster that mention informers or allocators
+func daemonLines(fd *ast.FuncDecl) []string {
+	var l []string
+	for _, st := range fd.Body.List {
+		t := src(st)
+		if strings.Contains(t, "NewInformer") || strings.Contains(t, "NewAllocator") || strings.Contains(t, "NewCluster") {
+			l = append(l, t)
+		}
+	}
+	return l
+}
+
 func lean(s string) string {
 	return `"` + strings.ReplaceAll(strings.ReplaceAll(s, `\`, `\\`), `"`, `\"`) + `"`
 }
@@ -609,7 +816,7 @@ func main() {
 	sortF := parse("allocator/util/metricsorter.go")
 
 	var b strings.Builder
-	b.WriteString("/- GENERATED by harness/extract_c03 from allocate.go, cluster_config.go, the allocators, monitor/metrics, pubsubmon, api/types.go, rpc_api.go, cluster.go; do not edit. -/\nimport ClusterVerif.Model.C03Pipeline\nimport ClusterVerif.Model.C03Alloc\nnamespace CV.C03.Gen\n\n")
+	b.WriteString("/- GENERATED by harness/extract_c03 from allocate.go, cluster_config.go, the allocators, monitor/metrics, pubsubmon, api/types.go, rpc_api.go, cluster.go; do not edit. -/\nimport ClusterVerif.Model.C03Pipeline\nimport ClusterVerif.Model.C03Alloc\nimport ClusterVerif.Model.C03Wiring\nnamespace CV.C03.Gen\n\n")
 	b.WriteString(leanList("allocateSkeleton", "allocate(): guards, where the metrics come from, and how the result of obtainAllocations is returned", early))
 	b.WriteString(leanList("classification", "allocate(): the cases, in order, that sort each valid metric into blacklisted / current / priority / candidate", cases))
 	b.WriteString(leanList("obtainSkeleton", "obtainAllocations(): definitions, guards (with what they return) and the final return, in order", oSk))
@@ -644,6 +851,10 @@ func main() {
 	b.WriteString("/-- descendalloc.Allocate as a structure -/\ndef descShape : AllocShape := " + allocShape(funcDeclRecv(descF, "DescendAllocator", "Allocate")) + "\n\n")
 	b.WriteString("/-- obtainAllocations(): which of its metric maps goes to which parameter of allocator.Allocate -/\ndef allocatorCallGroups : List Grp := " + allocatorCallGroups(obtain) + "\n\n")
 	b.WriteString("/-- repinFromPeer / vacatePeer: how the re-pin request is prepared -/\ndef repinShape : RepinShape := " + repinShape(funcDeclRecv(clusterF, "*Cluster", "repinFromPeer"), funcDeclRecv(clusterF, "*Cluster", "vacatePeer")) + "\n\n")
+	b.WriteString("/-- ClusterRPCAPI.BlockAllocate as a structure: prologue, everywhere arm, the arguments of its allocate() call -/\ndef blockShape : BlockShape :=\n  " + blockShape(funcDeclRecv(rpcF, "*ClusterRPCAPI", "BlockAllocate")) + "\n\n")
+	daemonF, diskCfgF, diskF := parse("cmd/ipfs-cluster-service/daemon.go"), parse("informer/disk/config.go"), parse("informer/disk/disk.go")
+	b.WriteString("/-- createCluster (daemon.go): informer and allocator built and handed to NewCluster; the metric allocate() asks the monitor for; the disk informer's default metric and arms -/\ndef wiring : Wiring :=\n  " + wiring(funcDecl(daemonF, "createCluster"), alloc, diskCfgF, funcDeclRecv(diskF, "*Informer", "GetMetric")) + "\n\n")
+	b.WriteString(leanList("daemonWiringSource", "createCluster: the statements that build the informer / allocator and the NewCluster call", daemonLines(funcDecl(daemonF, "createCluster"))))
 	b.WriteString("end CV.C03.Gen\n")
 	fmt.Print(b.String())
 }
